@@ -129,7 +129,10 @@ def _aero_surface(name, mesh, symmetry, twist_cp=None, viscous=True, wave=False,
         s["twist_cp"] = np.array(twist_cp, dtype=float)
     s.update(kw)
     if SHARE is not None and SHARE.get("level") == "surface":
-        key = ("surf", name, id(mesh))
+        # only tenants built from the identical configuration may share a surface dict: a builder for
+        # another configuration would write other properties into it after the first tenant's setup
+        # (that is the user editing a dict under a live Problem - user error, not an OAS defect)
+        key = ("surf", name, id(mesh), SHARE.get("ctx"))
         if key in SHARE["reg"]:
             return SHARE["reg"][key]  # the caller re-applies identical properties to the shared dict
         SHARE["reg"][key] = s
